@@ -1,8 +1,8 @@
 package main
 
 import (
-	"go/constant"
 	"go/ast"
+	"go/constant"
 	"go/token"
 	"go/types"
 	"sort"
@@ -1154,7 +1154,10 @@ func ruleHeadersBeforeStatus(c *Ctx, id string, rels []string, minSets int) {
 				if f.Body == nil {
 					continue
 				}
-				isW := func(e ast.Expr) bool { t := f.TypeOf(e); return t != nil && isNamedType(t, "net/http", "ResponseWriter") }
+				isW := func(e ast.Expr) bool {
+					t := f.TypeOf(e)
+					return t != nil && isNamedType(t, "net/http", "ResponseWriter")
+				}
 				type site struct {
 					key string
 					v   int
